@@ -1,8 +1,9 @@
 /-
 C05 — negation witnesses: concrete inputs on which a *full-strength* statement is false of the model
 (and, replayed by the harness on the real functions, of the implementation).  Each is listed in
-known_findings.txt (`stored-margin-right`, `rtl-minmax-shift-accumulates`,
-`rtl-relayout-shift-accumulates`, `zero-percent-height-auto-cb`).
+known_findings.txt (`stored-margin-right`, `zero-percent-height-auto-cb`).
+`rtl-minmax-shift-accumulates` (/repo 165e254) and `rtl-relayout-shift-accumulates` (/repo 7b9d21e) were
+repaired: their witnesses are now regression theorems stating the correct behaviour on the same inputs.
 -/
 import WpModel.Model.BoxModel
 import WpModel.Model.BlockTree
@@ -38,37 +39,51 @@ def rtlClamped : ABox :=
   { ml := some 0, mr := some 0, pl := 0, pr := 0, bl := 0, br := 0, w := some 200, minW := 0,
     maxW := .fin 50, posX := 0, isColumn := false }
 
-/-- The decorated `block_level_width` on `rtlClamped`: two passes, both over-constrained, both shift
-`position_x` (−100, then +50): the 50px-wide box ends at x = −50. -/
+/-- The decorated `block_level_width` on `rtlClamped`: two passes, both over-constrained; the second starts
+from the original `position_x` again, so only its own shift (+50) remains: the 50px-wide box ends at
+x = 50, its margin-right edge at the end of the containing block (it was −50 while the shifts of the two
+passes added up). -/
 theorem rtlClamped_result :
     blockLevelWidthMinMax (.box 100 .rtl) rtlClamped =
-      .ok { rtlClamped with w := some 50, posX := -50 } := by
+      .ok { rtlClamped with w := some 50, posX := 50 } := by
   have : (match blockLevelWidthMinMax (.box 100 .rtl) rtlClamped with
-      | .ok r => decide (r = { rtlClamped with w := some 50, posX := -50 })
+      | .ok r => decide (r = { rtlClamped with w := some 50, posX := 50 })
       | .error _ => false) = true := by decide +kernel
   revert this
   cases blockLevelWidthMinMax (.box 100 .rtl) rtlClamped <;> simp
 
-/-- `rtl-minmax-shift-accumulates`.  The full statement "in an rtl containing block the margin-right
-edge of the box is at the end of the containing block after the decorated `block_level_width`" is
-false: here the margin box is [−50, 0] while the containing block is [0, 100]
-(expected x = 50).  `C05.edge_flush_minmax_partial` states what is true. -/
-theorem rtl_shift_accumulates :
-    ¬ (∀ (b r : ABox) (o : Rat), blockLevelWidthMinMax (.box 100 .rtl) b = .ok r →
-        storedOuter r = some o → r.posX + o = b.posX + 100) := by
-  intro h
-  have := h rtlClamped _ 50 rtlClamped_result (by decide +kernel)
-  revert this
+/-- Regression (`fixed: rtl-minmax-shift-accumulates`): on the former counterexample the margin-right edge
+of the box is at the end of the rtl containing block: margin box [50, 100] in [0, 100].  The statement for
+every input is `C05.edge_flush_minmax`. -/
+theorem rtl_shift_does_not_accumulate :
+    ∀ (r : ABox) (o : Rat), blockLevelWidthMinMax (.box 100 .rtl) rtlClamped = .ok r →
+        storedOuter r = some o → r.posX + o = rtlClamped.posX + 100 := by
+  intro r o h ho
+  rw [rtlClamped_result] at h
+  simp only [Except.ok.injEq] at h
+  subst h
+  have : storedOuter { rtlClamped with w := some 50, posX := 50 } = some 50 := by decide +kernel
+  rw [this] at ho
+  simp only [Option.some.injEq] at ho
+  subst ho
   decide +kernel
 
-/-- `rtl-relayout-shift-accumulates`.  `block_level_width` moves `position_x` relatively (`+=`), so
-it is not idempotent on the position: a second layout of the same box object (what `_in_flow_layout` does
-after a border/padding page overflow: used values are re-resolved from the style, `position_x` is not
-reset) shifts again.  `width: 50px; margin: 0` in a 100px rtl containing block: 50 after one layout
-(correct), 100 after the re-layout. -/
-theorem relayout_shifts_again :
+/-- Three passes (`width: 200px; max-width: 20px; min-width: 50px`): still one shift. -/
+theorem rtl_three_passes :
+    (match blockLevelWidthMinMax (.box 100 .rtl) { rtlClamped with maxW := .fin 20, minW := 50 } with
+      | .ok r => decide (r.w = some 50 ∧ r.posX = 50)
+      | .error _ => false) = true := by decide +kernel
+
+/-- `block_level_width` moves `position_x` relatively (`+=`), so it is not idempotent on the position
+(`width: 50px; margin: 0` in a 100px rtl containing block: 50 after one call, 100 after a second call on the
+shifted box).  That is why a caller that lays a box out twice must restore `position_x` first; since
+/repo 7b9d21e `_in_flow_layout` does (`child.position_x = child_position_x` before the second
+`block_level_layout`), as `handle_min_max_width` does between its passes.  Regression for
+`fixed: rtl-relayout-shift-accumulates`: the re-layout from the restored position gives 50 again. -/
+theorem relayout_from_restored_position :
     (blwCore 100 .rtl overConstrained).posX = 50 ∧
-    (blwCore 100 .rtl { overConstrained with posX := (blwCore 100 .rtl overConstrained).posX }).posX = 100 := by
+    (blwCore 100 .rtl { overConstrained with posX := (blwCore 100 .rtl overConstrained).posX }).posX = 100 ∧
+    (blwCore 100 .rtl { blwCore 100 .rtl overConstrained with posX := overConstrained.posX }).posX = 50 := by
   decide +kernel
 
 /-- `zero-percent-height-auto-cb`.  Clause (d) for an auto-height containing block ("`max-height: v%`
